@@ -651,8 +651,31 @@ def oracle_selftest(tier, seed):
                 coverage_extra=dict(oracle_selftest_std_vector_calls=calls))
 
 
+# ------------------------------------------------------------------------------------------------ L2 at design level
+def mc_impl(tier, seed):
+    """MC_Impl: TLC executes the implementation-shaped scripts of spec/SVecImpl.tla for every explored state, every
+    modelled call and EVERY throw point, and asserts the whole L1 contract and the L0 machine on each predicted line."""
+    import suites
+    if tier == 'quick':
+        insts = [dict(suites.one(2, nothrow=False, maxlen=4, maxcnt=2), Profile='impl'),
+                 dict(suites.one(0, nothrow=True, maxlen=3, maxcnt=2), Profile='impl')]
+    else:
+        insts = [dict(suites.one(N, nothrow=nt, copyable=cp, maxlen=5, maxcnt=3), Profile='impl')
+                 for N in (0, 2, 3) for (nt, cp) in ((True, True), (False, True), (False, False), (True, False))]
+    rs = _run_many(P.gen_stimuli, insts, workers=6)
+    return dict(lines=0, ops=0, restarts=0, skipped=0, sample=[], sigs={}, nlines={}, violations=[], stims=0, stims_total=0,
+                mc=None, drv='MC_Impl', drvconf=None, fmode=0,
+                label='design level (MC_Impl): %d L2 instances, %d (state, call, throw point) transitions, all inside the L1 contract + L0 machine'
+                      % (len(rs), sum(r['generated'] for r in rs)),
+                coverage_extra=dict(design_level_L2_transitions=sum(r['generated'] for r in rs),
+                                    design_level_L2_states=sum(r['distinct'] for r in rs)))
+
+
 EXTRA = {
     'C01': [oracle_selftest],
+    'C03': [mc_impl],
+    'C05': [mc_impl],
+    'C06': [mc_impl],
     'C19': [c19],
     'C18': [c18_table],
     'C13': [c13_facts],
